@@ -24,11 +24,13 @@ pub struct DocParams {
     pub width_devs: bool,
     /// also enumerate the hand-written deep documents (five masters deep, followers at every level)
     pub extras: bool,
+    /// width deviations range over every width 1..=8 (instead of master 8 / leaf 2,8)
+    pub all_widths: bool,
 }
 
 impl DocParams {
     pub fn plain(max_nodes: usize) -> DocParams {
-        DocParams { max_nodes, globals: vec![], exclude: vec![], unknown_subsets: false, devs: 0, payload_classes: false, big_payloads: false, noncanonical: false, width_devs: false, extras: false }
+        DocParams { max_nodes, globals: vec![], exclude: vec![], unknown_subsets: false, devs: 0, payload_classes: false, big_payloads: false, noncanonical: false, width_devs: false, extras: false, all_widths: false }
     }
 }
 
@@ -100,13 +102,13 @@ pub fn for_each_doc(ctx: &mut Ctx, rs: &RefSpec, p: &DocParams, f: &mut dyn FnMu
         let alts: Vec<Vec<PayloadAlt>> = leaf_tys.iter().map(|t| payload_alts(*t, p)).collect();
         let mut slots: Vec<usize> = Vec::new();
         for _ in 0..m {
-            slots.push(if p.width_devs { 2 } else { 1 });
+            slots.push(if p.width_devs { if p.all_widths { 9 } else { 2 } } else { 1 });
         }
         for a in &alts {
             slots.push(a.len());
         }
         for _ in 0..leaf_tys.len() {
-            slots.push(if p.width_devs { 3 } else { 1 });
+            slots.push(if p.width_devs { if p.all_widths { 9 } else { 3 } } else { 1 });
         }
         for sub in subsets {
             let mut go = true;
@@ -118,12 +120,12 @@ pub fn for_each_doc(ctx: &mut Ctx, rs: &RefSpec, p: &DocParams, f: &mut dyn FnMu
                 crate::refmodel::visit_mut(&mut doc, &mut |n| match &mut n.kind {
                     Kind::Master(_) => {
                         let unk = sub >> mi & 1 == 1;
-                        let wide = choice[mi] == 1;
-                        n.size = match (unk, wide) {
-                            (false, false) => SizeEnc::Min,
-                            (false, true) => SizeEnc::Width(8),
-                            (true, false) => SizeEnc::Unknown(1),
-                            (true, true) => SizeEnc::Unknown(8),
+                        let alt = choice[mi];
+                        n.size = match (unk, alt) {
+                            (false, 0) => SizeEnc::Min,
+                            (false, a) => SizeEnc::Width(if p.all_widths { a as u8 } else { 8 }),
+                            (true, 0) => SizeEnc::Unknown(1),
+                            (true, _) => SizeEnc::Unknown(8),
                         };
                         mi += 1;
                     }
@@ -140,6 +142,7 @@ pub fn for_each_doc(ctx: &mut Ctx, rs: &RefSpec, p: &DocParams, f: &mut dyn FnMu
                         }
                         n.size = match choice[m + nl + li] {
                             0 => SizeEnc::Min,
+                            a if p.all_widths => SizeEnc::Width(a as u8),
                             1 => SizeEnc::Width(2),
                             _ => SizeEnc::Width(8),
                         };
@@ -254,5 +257,23 @@ pub fn spine_seqs() -> Vec<Seq> {
     out.push(vec![(0, ID_ROOT), (1, ID_M), (2, ID_N), (3, ID_K), (4, ID_KU), (2, ID_N), (3, ID_NU), (1, ID_M), (0, ID_ROOT), (1, ID_U)]);
     out.push(vec![(0, ID_EBML), (1, ID_EU), (0, ID_ROOT), (1, ID_M), (2, ID_N), (3, ID_NU), (0, ID_EBML), (0, ID_ROOT)]);
     out.push(vec![(0, ID_ROOT), (1, ID_P), (2, ID_PU), (1, ID_M), (2, ID_MU), (1, ID_P), (1, ID_M), (2, ID_N), (1, ID_P), (2, ID_PU)]);
+    out
+}
+
+/// Documents whose payload or master content length sits on a size-field boundary (2^(7k)-1 and neighbours).
+pub fn size_boundary_docs() -> Vec<Vec<Node>> {
+    use crate::spec::*;
+    let mut out = Vec::new();
+    for len in [124usize, 125, 126, 127, 128, 16379, 16380, 16381, 16382, 16383, 16384] {
+        out.push(vec![Node::master(ID_ROOT, vec![Node::leaf(ID_B, Val::B(vec![0x5a; len]))])]);
+    }
+    for len in [126usize, 127, 128, 16383] {
+        out.push(vec![Node::master(ID_ROOT, vec![Node::leaf(ID_S, Val::S("s".repeat(len)))])]);
+        // nested: the inner master's content hits the boundary, and another element follows
+        out.push(vec![Node::master(ID_ROOT, vec![Node::master(ID_M, vec![Node::master(ID_N, vec![Node::master(ID_K, vec![Node::master(ID_L, vec![Node::leaf(ID_LB, Val::B(vec![0xa5; len - 2]))])])])]), Node::leaf(ID_U, Val::U(9))])]);
+    }
+    // unknown-id raw tag with boundary payload (reader must allow unknown ids)
+    out.push(vec![Node::master(ID_ROOT, vec![Node { id: 0xf2, kind: Kind::RawLeaf(vec![0x11; 127]), size: SizeEnc::Min }])]);
+    out.push(vec![Node::master(ID_ROOT, vec![Node { id: 0x4f00, kind: Kind::RawLeaf(vec![]), size: SizeEnc::Min }, Node { id: 0x0100000000000003, kind: Kind::RawLeaf(vec![1, 2, 3]), size: SizeEnc::Min }])]);
     out
 }
